@@ -195,5 +195,5 @@ func (w *MIDIWriter) Marker(text string) {
 }
 
 func (w *MIDIWriter) Close() {
-	w.addAll(0, &Close{})
+	w.addAll(w.getTickDeltaAndClear(), &Close{})
 }
